@@ -117,12 +117,14 @@ def finish(prop, tier, seed, level, parts, rule, assumptions, t0):
         known_hits += p.known_hits
     cov = merge_parts(parts, rule)
     cov['known_findings_hit'] = known_hits
-    if cov['evaluations'] < 1 or cov['distinct_nontrivial'] < 2:
+    if not viol and (cov['evaluations'] < 1 or cov['distinct_nontrivial'] < 2):
         # a check that explored nothing must not pass silently
         print('ERROR property=%s explored too little (evaluations=%d, distinct_nontrivial=%d)' % (prop, cov['evaluations'], cov['distinct_nontrivial']))
         D.write_evidence(prop, tier, seed, level, dict(cov, evaluations=max(1, cov['evaluations']), distinct_nontrivial=max(2, cov['distinct_nontrivial']),
                                                       error='explored too little'), time.time() - t0, len(viol), assumptions)
         return 2
+    if viol:
+        cov['stopped_at_first_violation'] = True
     D.write_evidence(prop, tier, seed, level, cov, time.time() - t0, len(viol), assumptions)
     for k in known_hits:
         print('KNOWN-FINDING: property=%s %s' % (prop, k))
@@ -330,7 +332,29 @@ def check_C12(tier, seed, t0):
     return finish('C12', tier, seed, 'exploration', parts, C12_RULE, ASSUME_COMMON, t0)
 
 
-CHECKS = {'C03': check_C03, 'C09': check_C09, 'C12': check_C12, 'C04': check_C04, 'C11': check_C11, 'C08': check_C08, 'C10': check_C10, 'C13': check_C13, 'C14': check_C14, 'C01': check_C01, 'C02': check_C02, 'C05': check_C05, 'C06': check_C06, 'C07': check_C07}
+C18_RULE = ('11 vector/SmallVector configurations (TC/TR/NTR elements, allocators with and without reallocate, 8/16/32/64-bit size types): appending n '
+            'elements one by one for every n in 1..300, seed-derived larger n and the tier maximum (50k quick / 1M thorough), from start states '
+            '{empty, inline k<N, after reserve(r), after shrink_to_fit}; oracle: capacity changes <= 2*ceil(log2 n)+4, relocated elements <= 4n+16, '
+            'growth factor >= 1.5 unless clamped by size_type, allocator requests == capacity changes; reserve(r)/shrink_to_fit grid k=0..12 x r=0..40; '
+            'non-trivial = n >= 16 with >= 3 reallocations, or a growing reserve; distinct = distinct grid point')
+C19_RULE = ('FlatSet sizes n=0..300 and 511..1025 (..4097 thorough), every key rank present and absent: comparator calls of find/contains/count/'
+            'lower_bound/upper_bound/equal_range and of the position search of insert/emplace/erase(key) <= 2*ceil(log2(n+1))+4; insertion with every '
+            'correct hint (lower bound; upper bound for present keys) <= 8 calls; SmallSet inline lookups <= 2N+2 for N in {1,2,4,8,16}, every fill; '
+            'non-trivial = n >= 64 (FlatSet) or fill >= 2 (SmallSet); distinct = distinct (configuration, n); keys_probed counts the lookups')
+
+
+def check_C18(tier, seed, t0):
+    u = enum_unit('growth_c18', 'targets/growth_c18.cpp', kind='plain') if tier == 'thorough' else enum_unit('growth_c18_asan', 'targets/growth_c18.cpp', kind='asan')
+    parts = [enum_part('C18', 'growth_grid', [u], seed, tier, C18_RULE, crash_is_violation=False, exhaustive=False)]
+    return finish('C18', tier, seed, 'exploration', parts, C18_RULE, ASSUME_COMMON, t0)
+
+
+def check_C19(tier, seed, t0):
+    parts = [enum_part('C19', 'lookup_grid', [enum_unit('lookup_c19', 'targets/lookup_c19.cpp', kind='plain')], seed, tier, C19_RULE, crash_is_violation=False, exhaustive=False)]
+    return finish('C19', tier, seed, 'exploration', parts, C19_RULE, ASSUME_COMMON + ['comparator calls are counted by a global counter inside the comparator (key_comp() copies share it)'], t0)
+
+
+CHECKS = {'C03': check_C03, 'C09': check_C09, 'C18': check_C18, 'C19': check_C19, 'C12': check_C12, 'C04': check_C04, 'C11': check_C11, 'C08': check_C08, 'C10': check_C10, 'C13': check_C13, 'C14': check_C14, 'C01': check_C01, 'C02': check_C02, 'C05': check_C05, 'C06': check_C06, 'C07': check_C07}
 
 
 def all_units():
@@ -339,7 +363,8 @@ def all_units():
         us += [vec_unit(n, s) for n in C.VEC_MULTISTD]
     us += [fs_unit(n) for n, _ in C.FS_CONFIGS]
     us += [fault_unit(n) for n, _ in FAULT_CONFIGS]
-    us += [enum_unit('exh_c12', 'targets/exh_c12.cpp')]
+    us += [enum_unit('exh_c12', 'targets/exh_c12.cpp'), enum_unit('growth_c18', 'targets/growth_c18.cpp', kind='plain'),
+           enum_unit('growth_c18_asan', 'targets/growth_c18.cpp', kind='asan'), enum_unit('lookup_c19', 'targets/lookup_c19.cpp', kind='plain')]
     us += [ss_unit(n) for n, _ in C.SS_CONFIGS] + [ss_unit(n, '20') for n, _ in C.SS_CONFIGS[:4]]
     for s in ('11', '14', '20'):
         us += [fs_unit(n, s) for n in C.FS_MULTISTD]
